@@ -60,3 +60,49 @@ Definition run_sock (args : list Z) : list Z :=
   | pid0 :: ops => concat (map enc_evs (snd (run (init pid0) (dec_ops (length ops) ops))))
   | [] => []
   end.
+
+(* ------------------------------------------------------------- CRC and framing *)
+From PV Require Import crc.Crc stream.Stream.
+Open Scope Z_scope.
+
+Definition zN (z : Z) : N := Z.to_N z.
+Definition Nz (n : N) : Z := Z.of_N n.
+
+(* [2; bytes...] -> [crc_tbl] *)
+Definition run_crc (args : list Z) : list Z := [Nz (crc_tbl (map zN args))].
+
+(* [3; c1; c2; bytes...] -> [validate] *)
+Definition run_validate (args : list Z) : list Z :=
+  match args with
+  | c1 :: c2 :: bs => [bz (validate (map zN bs) [zN c1; zN c2])]
+  | _ => [-1]
+  end.
+
+Definition rawdec (h : hdr) (p : list N) : option (list N) := Some p.
+
+Definition gen_of (z : Z) : gen := if z =? 4 then AT4 else AT5.
+
+(* chunks: [len; bytes...; len; bytes...; ...] *)
+Fixpoint dec_chunks (fuel : nat) (l : list Z) : list (list N) :=
+  match fuel with
+  | O => []
+  | S f =>
+    match l with
+    | [] => []
+    | n :: r => map zN (firstn (zn n) r) :: dec_chunks f (skipn (zn n) r)
+    end
+  end.
+
+Definition enc_delivery (d : hdr * list N) : list Z :=
+  let '(h, p) := d in
+  [1; Nz (h_to h); Nz (h_from h); Nz (h_pid h); Nz (h_type h); Nz (h_len h)] ++ map Nz p.
+
+(* [4; gen; chunks] -> deliveries, then [2; alive; buffered] *)
+Definition run_stream (args : list Z) : list Z :=
+  match args with
+  | g :: cs =>
+    let '(ds, st) := feed_all _ rawdec (gen_of g) (Some []) (dec_chunks (length cs) cs) in
+    concat (map enc_delivery ds) ++
+    match st with Some b => [2; 1; nz (length b)] | None => [2; 0; 0] end
+  | [] => [-1]
+  end.
